@@ -143,6 +143,9 @@ func (s *PacketSock) WriteTo(p []byte, addr net.Addr) (int, error) {
 	n.dgramSeq++
 	d := &Datagram{Seq: n.dgramSeq, Network: family(s.network), From: s.laddr, To: addr, Data: append([]byte(nil), p...)}
 	n.flight = append(n.flight, d)
+	if n.dgramTapOn {
+		n.dgramTap = append(n.dgramTap, d.Data...)
+	}
 	s.Sent++
 	n.notify()
 	return len(p), nil
@@ -310,4 +313,17 @@ func (n *Network) Socks() []*PacketSock {
 	n.mu.Lock()
 	defer n.mu.Unlock()
 	return append([]*PacketSock(nil), n.allSocks...)
+}
+
+// TapDatagrams records the payload of every datagram sent from now on.
+func (n *Network) TapDatagrams() {
+	n.mu.Lock()
+	n.dgramTapOn = true
+	n.mu.Unlock()
+}
+
+func (n *Network) DgramTapBytes() []byte {
+	n.mu.Lock()
+	defer n.mu.Unlock()
+	return append([]byte(nil), n.dgramTap...)
 }
